@@ -5,6 +5,16 @@ set -u
 cd "$(dirname "$0")"
 . ./env.sh
 id="$1"; tier="${2:-quick}"
+# after the check: the evidence file it wrote must validate against the schema (when python3-vt + jsonschema are present)
+finish() {
+  if command -v python3-vt >/dev/null 2>&1 && [ -f "evidence/$id.json" ]; then
+    if ! python3-vt tools/validate_evidence.py "evidence/$id.json"; then
+      echo "HARNESS-ERROR evidence/$id.json does not validate against the evidence schema"
+      [ "$rc" -eq 0 ] && rc=2
+    fi
+  fi
+  exit "$rc"
+}
 cp -f /repo/go.sum ./go.sum 2>/dev/null
 mkdir -p bin
 if [ "$id" = "C20" ]; then
@@ -16,9 +26,11 @@ if [ "$id" = "C20" ]; then
   if ! go build -tags "verif maporder" -overlay bin/mo/overlay.json -o bin/vcheck-c20 ./cmd/vcheck 2>bin/build.log; then
     echo "HARNESS-ERROR build failed:"; cat bin/build.log; exit 2
   fi
-  exec bin/vcheck-c20 "$id" "$tier"
+  bin/vcheck-c20 "$id" "$tier"; rc=$?
+  finish
 fi
 if ! go build -tags verif -o bin/vcheck ./cmd/vcheck 2>bin/build.log; then
   echo "HARNESS-ERROR build failed:"; cat bin/build.log; exit 2
 fi
-exec bin/vcheck "$id" "$tier"
+bin/vcheck "$id" "$tier"; rc=$?
+finish
